@@ -145,10 +145,20 @@ func (o op) chain(sc *scenario) []lm.Step {
 
 var idRe = regexp.MustCompile(`id-[0-9]+-[0-9]+-`)
 
+func levelName(l slog.Level) string {
+	if n, ok := lm.LevelNames[l]; ok {
+		return n
+	}
+	return fmt.Sprintf("Level(%d)", int(l))
+}
+
 func genScenario(t *rapid.T) *scenario {
 	sc := &scenario{
-		kind:      rapid.IntRange(0, 2).Draw(t, "handler"),
-		threshold: rapid.SampledFrom([]slog.Level{logger.LevelDebug, logger.LevelDebug, logger.LevelInfo, logger.LevelWarn, logger.LevelError, logger.LevelFatal}).Draw(t, "threshold"),
+		kind: rapid.IntRange(0, 2).Draw(t, "handler"),
+		// "all thresholds": the five named levels, and any other value a caller may pass to NewOptions (between two
+		// named levels, below the lowest, above the highest): a record is written iff its level >= the threshold
+		threshold: rapid.SampledFrom([]slog.Level{logger.LevelDebug, logger.LevelDebug, logger.LevelInfo, logger.LevelWarn, logger.LevelError, logger.LevelFatal,
+			-8, -3, 1, 3, 5, 6, 7, 9, 11, 13, 15, 17, 1000}).Draw(t, "threshold"),
 		colorful:  rapid.IntRange(0, 3).Draw(t, "colorful") == 0,
 		addSource: rapid.IntRange(0, 2).Draw(t, "addSource") == 0,
 		yields:    rapid.SampledFrom([]int{0, 1, 2, 5, 20}).Draw(t, "yields"),
@@ -205,7 +215,7 @@ func (sc *scenario) render() string {
 	for _, s := range sc.scripts {
 		total += len(s)
 	}
-	return fmt.Sprintf("%s threshold=%s colorful=%v addSource=%v shared=%d goroutines=%d records=%d sink(yields=%d spins=%d)", lm.HandlerNames[sc.kind], lm.LevelNames[sc.threshold], sc.colorful, sc.addSource,
+	return fmt.Sprintf("%s threshold=%s colorful=%v addSource=%v shared=%d goroutines=%d records=%d sink(yields=%d spins=%d)", lm.HandlerNames[sc.kind], levelName(sc.threshold), sc.colorful, sc.addSource,
 		len(sc.shared)-1, len(sc.scripts), total, sc.yields, sc.spins)
 }
 
@@ -314,7 +324,7 @@ func runScenario(sc *scenario) (string, outcome) {
 			return fmt.Sprintf("unknown record id %s in %q", id, clip(w)), oc
 		}
 		if o.level < sc.threshold {
-			return fmt.Sprintf("record %s is below the threshold (%s < %s) but was written", id, lm.LevelNames[o.level], lm.LevelNames[sc.threshold]), oc
+			return fmt.Sprintf("record %s is below the threshold (%s < %s) but was written", id, lm.LevelNames[o.level], levelName(sc.threshold)), oc
 		}
 		if seen[id] {
 			return fmt.Sprintf("record %s was written twice", id), oc
